@@ -41,13 +41,14 @@ PROPS["C10"] = dict(
     not_covered=["byte-string and timestamp ordering beyond the listed bounded units", "structural equality of nested collections (derived PartialEq, std)"],
 )
 PROPS["C11"] = dict(
+    verus=["v_str_arith"],
     level="proof",
     text="arithmetic helpers on the real Value type over the full numeric domains",
     kani=["c11_int_arith", "c11_int_rem_class", "c11_int_rem_value_bounded", "c11_int_div_class", "c11_int_div_value_bounded",
           "c11_float_result", "c11_float_add", "c11_float_sub", "c11_float_mul", "c11_float_div_class", "c11_float_div_value_bounded",
           "c11_float_rem_class", "c11_mixed_add_sub", "c11_mixed_mul", "c11_mixed_div_class", "c11_bytes_mul_clamp"],
     trusted=[],
-    not_covered=["string concatenation/repetition contents beyond the bounded unit (bytes crate internals)",
+    not_covered=["the bytes crate itself (Bytes/BytesMut put/freeze/repeat are std/bytes contracts in the prelude strarith.rs); string `+` and `*` are proved for every string against those contracts (v_str_arith)",
                  "numeric value of `/` and `%` results over the full domain: two 64-bit dividers in one SAT query did not finish in 30 min, so value equality is bounded (stated per unit) while zero-divisor/NaN classification is full-domain",
                  "float `%` NaN classification: CBMC's frem model disagrees with IEEE for infinite dividends, so only 'never returns NaN' is claimed"],
 )
